@@ -143,6 +143,7 @@ pub fn finish(id: &str, out: &Outcome) -> i32 {
 
 pub fn run_generic(id: &str, tier: Tier) -> i32 {
     match id {
+        "C16" => return run_c16(tier),
         "C17" => return run_c17(tier),
         "C18" => return run_c18(tier),
         _ => {}
@@ -193,6 +194,27 @@ pub fn replay(path: &str) -> i32 {
                 }
                 Err(f) => {
                     println!("VIOLATION property=C17 replay={}", path);
+                    println!("  clause: {}\n  detail: {}", f.clause, f.detail);
+                    1
+                }
+            };
+        }
+        Some("segment-pair") => {
+            let d = match crate::props::segpair::pair_from_json(&v) {
+                Some(d) => d,
+                None => {
+                    eprintln!("cannot parse segment pair in {}", path);
+                    return 2;
+                }
+            };
+            let e = crate::props::segpair::eval_pair(&d, false);
+            return match e.result {
+                Ok(()) => {
+                    println!("replay {}: property C16 holds on this pair (classes {:?}, counters {:?})", path, e.obs.classes, e.obs.counters);
+                    0
+                }
+                Err(f) => {
+                    println!("VIOLATION property=C16 replay={}", path);
                     println!("  clause: {}\n  detail: {}", f.clause, f.detail);
                     1
                 }
@@ -498,4 +520,63 @@ pub fn run_c18(tier: Tier) -> i32 {
         return 2;
     }
     code
+}
+
+// ---------------------------------------------------------------------------------------------
+// C16
+
+pub fn run_c16(tier: Tier) -> i32 {
+    use crate::props::segpair::*;
+    let seed = seed_from_env();
+    let t0 = Instant::now();
+    let mut stats = Stats::default();
+    let mut violations = Vec::new();
+    let mut known_lines = Vec::new();
+    let rule = "pairs of segments handed to the public possible_intersection as the sweep does (two left events, operand and in_out flags), in both argument orders: (a) every ordered pair of segments on the 4x4 integer lattice x operand flags x in_out flags (exhaustive), (b) integer pairs below 2^25 drawn by construction class (random, common endpoint, T-contact, collinear apart/touching/partial/contained/equal; vertical and horizontal variants), (c) finite float pairs in f64 and f32 (uniform, near-vertical within a few ulps, near-parallel, scaled by 2^k). Oracle: exact classification by robust orientation tests; effects (pieces, split points, typing, links, return code) per class; i128 rational crossing point as accuracy reference. Non-trivial: any class other than `disjoint`. Distinct: hash of coordinates and flags.";
+    let plan = |name: &'static str, cases: u64, strat: fn() -> proptest::strategy::BoxedStrategy<SegPair>| Plan::<SegPair> {
+        name,
+        cases,
+        strategy: Box::new(strat),
+        eval: Box::new(|d: &SegPair, s: bool| eval_pair(d, s)),
+        replay: Box::new(|d: &SegPair, _f: &Failure| pair_to_json(d)),
+    };
+    // pinned inputs: regressions strictly; known findings with their signature
+    for (path, v) in pinned_files("regress", "C16") {
+        if let Some(d) = pair_from_json(&v) {
+            stats.evaluations += 1;
+            if let Err(f) = eval_pair(&d, false).result {
+                violations.push(Violation { replay: path, clause: f.clause, detail: f.detail });
+            }
+        }
+    }
+    for (path, v) in pinned_files("known", "C16") {
+        if let Some(d) = pair_from_json(&v) {
+            stats.evaluations += 1;
+            let e = eval_pair(&d, false);
+            match e.result {
+                Err(f) => violations.push(Violation { replay: path, clause: f.clause, detail: format!("a known-finding input fails with a different signature: {}", f.detail) }),
+                Ok(()) => {
+                    if e.obs.counters.iter().any(|c| c.0 == "known_signature_hits_N2") {
+                        known_lines.push(format!("N2 divide_segment corner case 1 moves the division point of one of the two segments one ulp to the right, so the two segments are split at different points (input {})", path));
+                    }
+                }
+            }
+        }
+    }
+    if violations.is_empty() {
+        let (total, make) = lattice_space(3);
+        let p = plan("lattice", total, || unreachable!());
+        run_indexed_g("C16", "all ordered segment pairs on the 4x4 lattice x operand flags x in_out flags", total, &*make, &p, &mut stats, &mut violations, true);
+    }
+    if violations.is_empty() {
+        let plans = vec![
+            plan("integer-by-class", tier.pick(120_000, 12_000_000), integer_strategy),
+            plan("float-f64", tier.pick(60_000, 6_000_000), || float_strategy(false)),
+            plan("float-f32", tier.pick(30_000, 3_000_000), || float_strategy(true)),
+        ];
+        run_plans("C16", seed, &plans, &mut stats, &mut violations);
+    }
+    let out = Outcome { violations, known_lines, stats, extra: json!({}) };
+    write_evidence("C16", tier, seed, rule, &["integer family: all intermediate products of the library are exact below 2^25, so the classification clauses are demanded exactly", "float family: only containment in both bounding boxes, common split point, link/flag clauses, and detection with a margin of 1e-9*magnitude (f32: 1e-4) are demanded", "split points that differ with the exact shape of the recorded finding N2 (equal y, x one ulp apart, smaller x = left x of the bumped segment, y below it) are counted under known_signature_hits_N2 and not reported"], &out, t0.elapsed().as_secs_f64(), false);
+    finish("C16", &out)
 }
